@@ -33,6 +33,12 @@ theorem mem_readSlice_noPanic (n : Nat) : NoPanic (Mem.readSlice n) := by
 theorem mem_readArray_noPanic (n : Nat) : NoPanic (Mem.readArray n) := by
   intro l; rw [mem_readArray]; split <;> simp
 
+theorem mem_readBool_noPanic : NoPanic (readBool Mem) := by
+  refine noPanic_andThen mem_readU8_noPanic (fun b l' => ?_)
+  by_cases h0 : b = 0
+  · simp [h0]
+  · by_cases h1 : b = 1 <;> simp [h0, h1]
+
 theorem mem_readInt_noPanic (k : Nat) : NoPanic (readInt Mem k) :=
   noPanic_andThen (mem_readArray_noPanic k) (fun _ => noPanic_ret _)
 
@@ -54,6 +60,12 @@ theorem mem_readElem_noPanic (e : Elem) : NoPanic (readElem Mem e) := by
   · exact mem_readInt_noPanic 8
   · exact mem_readInt_noPanic 16
   · exact mem_readUsize_noPanic
+  · exact noPanic_ret _
+  · refine noPanic_andThen mem_readBool_noPanic (fun b => ?_)
+    cases b
+    · exact noPanic_ret _
+    · exact noPanic_andThen mem_readU8_noPanic (fun _ => noPanic_ret _)
+  · exact noPanic_andThen mem_readU8_noPanic (fun _ => noPanic_andThen (mem_readInt_noPanic 2) (fun _ => noPanic_ret _))
 
 theorem mem_readMany_noPanic (e : Elem) : ∀ n, NoPanic (readMany Mem e n)
   | 0 => noPanic_ret _
